@@ -8,6 +8,7 @@ import ASV.Proofs.Parser.Main
 import ASV.Proofs.Parser.Grammar
 import ASV.Proofs.Parser.Tokeniser
 import ASV.Proofs.Parser.RulePP
+import ASV.Proofs.Parser.Alias
 namespace ASV.C02
 open ASV ASV.Rules ASV.Parser ASV.Grammar ASV.Layout
 
@@ -172,6 +173,28 @@ example : shapeOr (.or (.one (.id false "a")) (.one (.and (.id false "b") (.one 
   simp [shapeOr, shapeAnd, shapeAtoms, shapeAtom]
 example : okTop (.or (.one (.id false "a")) (.one (.and (.id false "b") (.one (.id true "c"))))) = true := by
   decide +kernel
+
+/-! ### DEFINE aliases behave as textual substitution (thm 4, `_partial`: the step lemma and the
+    invariant are proved; that every parser function therefore returns on `(A, ts)` what it returns
+    on `(∅, subst A ts)` is left to the correspondence, whose oracle is exactly that substitution) -/
+
+/-- thm 4 core: with a flat alias table (no definition mentions an alias, none is empty), `_consume`
+    hands out the head of the *substituted* stream (`view`: current token, then the rest with every
+    alias identifier replaced by its definition) and leaves its tail; the token now current is never
+    an alias name, the table is untouched. -/
+theorem alias_is_substitution_partial (s s' : PS) (expected : TT) (c : Tok) (hf : Flat s.aliases)
+    (h : consume expected s = .ok (c, s')) :
+    view s = c :: view s' ∧ s'.aliases = s.aliases ∧ ∀ c', s'.cur = some c' → aliasName s.aliases c' = false :=
+  consume_view hf h
+
+/-- … and every `Parser` run keeps the table flat (an alias whose name is already used as an
+    identifier inside a definition is refused: fixes/D25), starting from the empty table of
+    `create_rules`; so the hypothesis of the step lemma always holds. -/
+theorem aliases_stay_flat (cfg : Cfg) (rules rules' : List Rule) (aliases aliases' : Aliases) (toks : List Tok)
+    (h : parseTokens cfg rules aliases toks = .ok (rules', aliases')) (hf : Flat aliases) : Flat aliases' :=
+  parseTokens_flat h hf
+
+example : Flat [] := ⟨by simp, by simp⟩
 
 /-! ### non-vacuity: each listed class of ill-formed input on a concrete text -/
 
